@@ -105,6 +105,25 @@ def explore(ck: Check, max_w: int, n_random: int) -> None:
             buf[rng.randrange(w)] = rng.randrange(256)
             buf = bytes(buf)
         add(kind, s, d - n, n, buf, f"{kind}/random")
+    # pictures with the scaling symbol P (V to the left or the right of it): every decoded value fits -- the digits written, scaled by
+    # the P positions as well -- or the field is refused (the library refuses all of them: an error satisfies the property)
+    for pic, usage, digits, scale in (("VPP99", "DISPLAY", 2, 4), ("VP(2)99", "DISPLAY", 2, 4), ("SVPP999", "COMP-3", 3, 5), ("VP9", "DISPLAY", 1, 2),
+                                      ("99PPV", "DISPLAY", 2, -2), ("SVP99", "COMP-3", 2, 3)):
+        w = digits if usage == "DISPLAY" else (digits + 2) // 2
+        for _ in range(40):
+            buf = (bytes(0xF0 + rng.randrange(10) for _ in range(w)) if usage == "DISPLAY"
+                   else bytes([rng.randrange(10) * 16 + rng.randrange(10) for _ in range(w - 1)] + [rng.randrange(10) * 16 + 0xC]))
+            if usage == "COMP-3" and digits % 2 == 0:
+                buf = bytes([buf[0] & 0x0F]) + buf[1:]
+            out = impl_unpack(usage, pic, buf)
+            ck.case((usage, pic, buf), nontrivial=True, feature="scaling-P")
+            ck.oracle_evaluations += 1
+            if not is_error(out):
+                parts = out.split()
+                ok = parts[0] == "dec" and int(parts[2]) < 10 ** digits and int(parts[3]) == -scale
+                if not ok:
+                    ck.fail("scaling-P:does-not-fit", f"unpack('USAGE {usage} PIC {pic}', {buf.hex()}) = {out}: the picture holds {digits} digits "
+                                                      f"scaled by 10**{-scale}", {"usage": usage, "picture": pic, "buffer": buf.hex()})
     model = ck.driver.run(reqs)
     ck.compare_streams("estruct.unpack vs Decode.unpack (arbitrary bytes)", inputs, impl, model)
     ck.sample({"usage": "COMP-3", "picture": "999", "buffer": "1a3c", "result": impl_unpack("COMP-3", "999", bytes.fromhex("1a3c"))})
